@@ -191,7 +191,8 @@ impl HdlcDeframer {
                         bits.len(),
                         bits
                     );
-                } else if bits.len() / 8 < self.min_size {
+                } else if bits.len() / 8 < self.min_size || (self.strip_checksum && bits.len() < 16) {
+                    // A frame shorter than its own checksum can't be checked.
                     trace!("Packet too short: {} < {}", bits.len() / 8, self.min_size);
                 } else {
                     let bytes: Vec<u8> = (0..bits.len())
